@@ -13,6 +13,10 @@ CHECKS = {
    text="All 7.5e8 token strings of <=6 tokens (thorough: <=7) over the 30-token alphabet through Interface::run with a bounded writer, shorter strings with five more writers, all <=3-unit query messages with every writer capacity 0..=64, and process::<N> for N in 1..=16,31..33,64,65 (thorough: up to 128) over message-pool streams and all short token strings with all compositions into reads (short streams) or <=2 cuts: no panic, run returns a suffix, no read into an empty buffer, hook invariant proc_offset<=read_offset<=N, termination only through the transport error, watchdog for non-consuming loops.",
    note="Handlers of the harness never panic; executor polls unconditionally (no lost wake-ups modelled); the random/coverage-guided part of the property's quantifier is outside this technique and not claimed.",
    technique="bounded exhaustive enumeration of inputs, writer capacities, buffer sizes and read chunkings on the real code (stateless model checking)"),
+ "C06": dict(engine="msg-enum+env-enum",
+   text="A 64-message alphabet (15 faulty units covering syntax error, undefined header, wrong parameter count, unconvertible parameter and handler error, each alone and as 1st/2nd/3rd unit of a three-unit message, plus sound messages) is checked message by message against the reference model (exactly one error, faulty handler not called unless the fault is its own, verbatim handler error, units before executed, all or none after), and every history of <=3 (quick) / <=4 (thorough) messages is delivered through run (one buffer), process in one read and process byte by byte, for two buffer sizes; each delivery must observe exactly the concatenation of the per-message observations. Exhaustive over the alphabet and depth.",
+   note="Expectations for single messages come from spec::msg; history clause is differential (needs no expected values). Messages are complete single-newline messages as the property requires.",
+   technique="bounded exhaustive enumeration of message histories over all delivery modes on the real code, reference model for single messages"),
  "C07": dict(engine="env-enum+env-bfs",
    text="For every stream of <=3 messages from a 16-message pool (sound, each fault kind, embedded newlines, empty, unterminated, messages of N-1/N/N+1 bytes, alignment pads) and 8 (quick) / 18 (thorough) buffer sizes, the real process future is executed under every composition of the stream into reads (short streams), every chunking with <=2-3 cuts, regular chunkings and inserted zero-length reads, and under every Pending pattern with <=1 (quick) / <=2 (thorough) suspended futures; all observations must equal the one-byte-per-read observation and, when every message fits and is single-newline, the run-per-message observation. In addition a breadth-first search over read histories, merged on (position, loop state from the hook, observation so far), explores every read size 0..=free at every state for streams up to 4N bytes and requires all terminal states of a stream to carry the same observation.",
    note="Merging relies on the hook exposing all loop-carried variables of process (argued in DESIGN.md 3.4); the un-merged enumeration does not. Executor polls unconditionally (no lost wake-ups modelled).",
